@@ -153,7 +153,9 @@ def check_contract(case, s, t, where):
     """the posterior() contract alone (it is owed after ANY history change, e.g. one more sample() or a load_state(), not only after run())"""
     from vlib import cfggen
 
-    nblob = {"blobs": 1, "blobs2": 2}.get(case["mode"], 0)
+    from vlib.targets import BLOB_MODES
+
+    nblob = BLOB_MODES.get(case["mode"], 0)
     for rs, tr, rb, rl in itertools.product([False, True], repeat=4):
         what = f"{where}: posterior(resample={rs}, trim_importance_weights={tr}, return_blobs={rb}, return_logw={rl})"
         o = lib_call(s.posterior, resample=rs, trim_importance_weights=tr, return_blobs=rb, return_logw=rl, what=what)
@@ -167,7 +169,7 @@ def check_contract(case, s, t, where):
         for i in range(len(x)):
             if not (cfggen.ll_of(case, t, x[i]) == logl[i]):
                 raise Violation(f"{what}: row {i}: logl does not belong to x", sig={"kind": "row-logl"})
-            if rb and nblob and not np.array_equal(np.asarray(o[3][i], dtype=float).ravel(), np.array(t.blob_vec(x[i]))):
+            if rb and nblob and not t.blob_match(x[i], o[3][i]):
                 raise Violation(f"{what}: row {i}: blob does not belong to x", sig={"kind": "row-blob"})
         if rl:
             lw_out = np.asarray(o[-1], dtype=float)
